@@ -563,4 +563,10 @@ theorem verify_no_panic (urlOk : Bytes → Bool) (budget : Nat) (hb : 2048 ≤ b
         simp only
         rw [walk_decoded_no_panic budget 2048 hb b v r hdec]; rfl
 
+/-! ## tie to the source: the limits that bound recursion -/
+
+/-- the limits in the source (extracted on every run) are the ones the pipelines above assume, and
+within the stack budget the fuzz validates on the real binary -/
+theorem source_limits : Consts.maxPathComponents = Load.maxPathComponents ∧ Consts.valueMaxDepth = 2048 := by decide
+
 end Imdlv.C08
